@@ -14,7 +14,7 @@ from ..engine import HOLDS, UNDECIDED, VIOLATED, Check
 from ..loader import AnalysisError, ancestors, parent
 from ..program import NotConst
 from ..recon import _own_nodes
-from ..rulelib import eval_conds, conds_sym, field_map, fld, inst_attr, insts_in_func, reach_table
+from ..rulelib import atomic_facts, eval_conds, conds_sym, field_map, fld, inst_attr, insts_in_func, reach_table
 
 LEVEL = "proof"
 TECHNIQUE = ("static analysis: accepted-set computation of guards by evaluating their reconstructed condition terms on region "
@@ -472,7 +472,41 @@ def run(chk: Check):
                     if vals and all(isinstance(v, str) for v in vals):
                         reqs = (toplevel_stmt(r_, ectx.func), set(vals), r_)
     wantreq = {"vmware.keyInfo", "vmware.cipherName", "vmware.keyHash"}
-    if reqs is None:
+    # spelled out, a short loop that was unrolled, or a first-missing search that became a conditional chain: decided by
+    # evaluating the raises' conditions with the membership tests `"name" in attributes` forced to every combination
+    spelled = {}
+    atoms = {}
+    cand = []
+    for r_ in [x for x in _own_nodes(ectx.func) if isinstance(x, ast.Raise)]:
+        ck = conds_sym(chk, ectx, r_, with_kind=True)
+        mine = set()
+        for t, pol, kind in ck:
+            for x in S.walk(t):
+                if isinstance(x, tuple) and x and x[0] == "cmp" and x[1] in ("in", "notin") and S.is_const(x[2]) and isinstance(x[2][1], str):
+                    atoms.setdefault(x[2][1], set()).add(x)
+                    if kind == "if":
+                        mine.add(x)
+        own = [(t, pol) for t, pol, kind in ck if kind == "if"]
+        if mine and all(S.contains(t, lambda y: y in mine) for t, _ in own):
+            top = toplevel_stmt(r_, ectx.func)
+            node = ectx.cfg.node_of.get(top)
+            if node is not None and ectx.cfg.dominates(node, ectx.cfg.exit) and not in_try(r_, ectx.func):
+                cand.append((top, [(t, pol) for t, pol, _k in ck if any(S.contains(t, lambda y, a_=a_: y == a_) for s_ in atoms.values() for a_ in s_)]))
+    if cand and len(atoms) <= 8:
+        def raised(missing):
+            ov = {}
+            for name, ts in atoms.items():
+                for x in ts:
+                    ov[x] = (name in missing) == (x[1] == "notin")
+            return any(eval_conds(rel_c, S.Valuation(1, override=ov)) for _top, rel_c in cand)
+        if not raised(set()):
+            for name in atoms:
+                if raised({name}):
+                    spelled[name] = cand[0][0]
+    if reqs is None and spelled:
+        chk.decide(set(spelled) >= wantreq, "K-GATE", "envelope:required-attributes", next(iter(spelled.values())),
+                   f"each of {sorted(wantreq)} must be present (each test dominates the exit)", expected=str(sorted(wantreq)), found=str(sorted(spelled)))
+    elif reqs is None:
         chk.violated("K-GATE", "envelope:required-attributes", ectx.func, "required attributes are not checked")
     else:
         n, seq, r = reqs
